@@ -310,6 +310,23 @@ fn run_with(pool: &[PoolCert], case: &Case, out: &mut Out) {
                     out.viol("authority", &format!("authority {} against {:?}: predicate says {}, RFC 6125 reference says {}", show(authority.as_bytes()), names, got.is_some(), exp));
                 }
             }
+            "authsni" => {
+                let authority = s(a[0].b());
+                let sni = s(a[1].b());
+                let got = strict_sni::authority_matches_sni(&authority, &sni);
+                out.obs(&[tbool(got)]);
+                // documented: the authority without its ":digits" suffix equals the (lower-case) server name,
+                // the authority read without regard to ASCII case
+                let ab = authority.as_bytes();
+                let host = match ab.iter().rposition(|c| *c == b':') {
+                    Some(p) if p + 1 < ab.len() && ab[p + 1..].iter().all(|c| c.is_ascii_digit()) => &ab[..p],
+                    _ => ab,
+                };
+                let exp = host.to_ascii_lowercase() == sni.as_bytes();
+                if exp != got {
+                    out.viol("authority-sni", &format!("authority {} against server name {}: predicate says {}, exact comparison says {}", show(ab), show(sni.as_bytes()), got, exp));
+                }
+            }
             other => panic!("unknown op {other}"),
         }
     }
